@@ -373,6 +373,43 @@ def r_union_first(ck: Checker) -> None:
         ck.violation("R-UNION-FIRST", f, f.node, what, construct=verdict)
 
 
+def r_member_by_eq(ck: Checker) -> None:
+    """`value in C` inside is_instance: the candidate is an arbitrary object (a list given for a Literal field).  Membership in a tuple or
+    list compares with ==; membership in a set / frozenset / dict hashes the candidate first and raises TypeError for an unhashable one, so
+    an ill-typed value escapes as TypeError instead of being reported as non-conforming (positive pattern: the container is a hash container)."""
+    f = ck.repo.func(TYPING, "is_instance")
+    vp = f.node.args.args[0].arg
+    tree = ck.repo.mod(TYPING).tree
+    helpers = {st.name: st for st in tree.body if isinstance(st, ast.FunctionDef)}
+
+    def container(e: ast.expr, depth: int = 0) -> ast.expr:
+        if isinstance(e, ast.Call) and isinstance(e.func, ast.Name) and e.func.id in helpers and depth < 3:
+            rets = [r for r in walk_body(helpers[e.func.id].body) if isinstance(r, ast.Return) and r.value is not None]
+            if len(rets) == 1:
+                return container(rets[0].value, depth + 1)
+        if isinstance(e, ast.Name):
+            defs = [st for st in walk_body(f.node.body) if isinstance(st, ast.Assign) and len(st.targets) == 1 and norm(st.targets[0]) == e.id]
+            if len(defs) == 1 and depth < 3:
+                return container(defs[0].value, depth + 1)
+        return e
+    n = 0
+    for fn in [x for x in (f.raw, f.node) if x is not None]:
+        for c in ast.walk(fn):
+            if isinstance(c, ast.Compare) and len(c.ops) == 1 and isinstance(c.ops[0], (ast.In, ast.NotIn)) and norm(c.left) == vp:
+                n += 1
+                e = container(c.comparators[0])
+                what = "is_instance: a membership test of the value compares with == (no hashing of a possibly unhashable candidate)"
+                hashy = isinstance(e, (ast.Set, ast.SetComp, ast.Dict, ast.DictComp)) or \
+                    (isinstance(e, ast.Call) and dotted(e.func) in ("set", "frozenset", "dict", "dict.fromkeys", "collections.Counter", "Counter"))
+                if hashy:
+                    ck.violation("R-BOOLGUARD-TT", f, c, what, positive=True,
+                                 construct=f"is_instance: `{norm(c)[:50]}` tests membership in {norm(e)[:40]} — an unhashable value raises TypeError instead of giving False")
+                else:
+                    ck.holds("R-BOOLGUARD-TT", f, c, what, container=norm(e)[:40])
+    if n == 0:
+        ck.incomplete("R-BOOLGUARD-TT", f, f.node, "no membership test of the value found in is_instance (the Literal arm was confirmed by hand)")
+
+
 def run(ck: Checker) -> None:
     ck.explanation = (
         "Truth table of the leading bool/int guard of is_instance over its identity atoms (must equal: annotation is int AND value is a bool), "
@@ -390,6 +427,7 @@ def run(ck: Checker) -> None:
     from .c11 import r_normalise
     ck.guard("R-NORMALISE", lambda: r_normalise(ck))
     ck.guard("R-UNION-FIRST", lambda: r_union_first(ck))
+    ck.guard("R-BOOLGUARD-TT", lambda: r_member_by_eq(ck))
     from . import state_rules as S
     ck.guard("R-GATE", lambda: S.r_config_readonly(ck, "R-GATE", ("RUNTIME_TYPE_CHECK",)))
     from . import templates_rules as T13
